@@ -46,6 +46,7 @@ structure St where
   connHost : List (Nat × Nat) := []     -- open HTTP/1.1 connections
   outstanding : List (Nat × Nat) := []  -- (conn, tag) request in progress
   inflight : List (Nat × Nat) := []     -- host ↦ HTTP/1.1 requests in flight
+  abandoned : List (Nat × Nat) := []    -- (conn, tag) whose caller closed the body early
 deriving Repr
 
 def getD (m : List (Nat × Nat)) (k : Nat) : Nat := (m.lookup k).getD 0
@@ -81,7 +82,9 @@ def step (cfg : Cfg) (s : St) : Ev → Except String St
       if t' != t then .error "origin-order"
       else .ok { s with outstanding := del s.outstanding c, inflight := put s.inflight h (getD s.inflight h - 1),
                         answered := t :: s.answered }
-    | _, _ => .error "origin-order"
+    | _, _ =>
+      -- the caller closed the body early and the origin has not noticed yet
+      if s.abandoned.contains (c, t) then .ok s else .error "origin-order"
   | .mreq _ t =>
     if !s.sent.contains t || s.finished.contains t then .error "ghost-request" else .ok s
   | .mresp _ t => .ok { s with answered := t :: s.answered }
@@ -90,6 +93,15 @@ def step (cfg : Cfg) (s : St) : Ev → Except String St
     else if s.finished.contains t then .error "double-finish"
     else if echo != t || !ok then .error "mixed-response"
     else if !early && !s.answered.contains t then .error "phantom-response"
+    else if early then
+      -- the caller closed the body early: the client closes the connection and frees its slot
+      -- now, although the origin may notice only later
+      match s.outstanding.find? (fun p => p.2 == t) with
+      | some (c, _) =>
+        let h := (s.connHost.lookup c).getD 0
+        .ok { s with finished := t :: s.finished, outstanding := del s.outstanding c,
+                     inflight := put s.inflight h (getD s.inflight h - 1), abandoned := (c, t) :: s.abandoned }
+      | none => .ok { s with finished := t :: s.finished }
     else .ok { s with finished := t :: s.finished }
   | .fail t =>
     if !s.sent.contains t then .error "unknown-tag"
